@@ -52,7 +52,7 @@ func (h hdr) text(sub bool) string {
 	if sub {
 		sb.WriteString(`submodule a { belongs-to o { prefix o; }`)
 	} else {
-		sb.WriteString(`module a { namespace "urn:a"; prefix a;`)
+		sb.WriteString(`module a { namespace "urn:a"; prefix a; import dep { prefix dep; }`)
 	}
 	for _, r := range h.revs {
 		fmt.Fprintf(&sb, " revision %s;", r)
@@ -103,6 +103,7 @@ func revObserve(in RevInput) (acc []bool, keys map[string]string, bind map[strin
 	for _, rd := range importDates {
 		m2 := yang.NewModules()
 		load(m2)
+		m2.Parse(`module dep { namespace "urn:dep"; prefix dep; }`, "dep.yang")
 		var user string
 		date := ""
 		if rd != "" {
@@ -119,6 +120,19 @@ func revObserve(in RevInput) (acc []bool, keys map[string]string, bind map[strin
 		}
 		errs := m2.Process()
 		got := "ERR"
+		if len(errs) == 0 && !in.Sub {
+			// every loaded revision has its own imports bound, not only the latest one
+			for k, m := range m2.Modules {
+				for _, im := range m.Import {
+					if im.Module == nil {
+						bind[rd] = "UNBOUND-IMPORT-IN-" + k
+					}
+				}
+			}
+			if strings.HasPrefix(bind[rd], "UNBOUND") {
+				continue
+			}
+		}
 		if len(errs) == 0 {
 			var tm *yang.Module
 			if in.Sub {
@@ -195,6 +209,10 @@ func checkRev(in RevInput) *fail {
 			}
 		}
 		for _, rd := range importDates {
+			if strings.HasPrefix(bind[rd], "UNBOUND") {
+				f = &fail{"import-of-a-loaded-revision-left-unbound", "every loaded revision has its imports bound after Process", bind[rd], cl}
+				return
+			}
 			wantB := ""
 			switch {
 			case rd == "":
@@ -426,7 +444,7 @@ func mainTree(ms *yang.Modules) string {
 		return "<no module m>"
 	}
 	e := yang.ToEntry(m)
-	dump.Entry(&sb, e, "", dump.Options{}, map[*yang.Entry]bool{})
+	dump.Entry(&sb, e, "", dump.Options{NoExtra: true}, map[*yang.Entry]bool{})
 	// identities: those written in the module and in its submodules (where the library lists them is
 	// not compared, only what they are derived into)
 	var ids []string
